@@ -329,4 +329,5 @@ pub fn check(e: &Engine) {
 	);
 	e.require_label("verdicts", "pattern-matches-a-path", 0.4);
 	e.require_label("verdicts", "multi-path-event", 0.2);
+	e.fuzz_leg("c11_glob", 150000, 256, "coverage-guided libFuzzer over byte-decoded (patterns, path) pairs from the pattern grammar; oracle inside the target: the harness reference matcher agrees with the glob library for path-only and path-or-parents matching (hardens the oracle used by C03/C11/C14)");
 }
